@@ -16,7 +16,7 @@ from ..values import (Const, Sym, CRef, FRef, Bound, Obj, Tup, App, New,
                       Raise, Coll, walk)
 from ..interp import Interp, Hooks, is_private_helper
 from ..galg import GraphHooks
-from ..report import Finding, RuleResult, floor
+from ..report import Finding, RuleResult, floor, Attempts
 from . import c01, c07
 
 PROP = 'C19'
@@ -275,14 +275,17 @@ def rule_res4(prog):
 
 def run(prog, tier, seed):
     E = c07.effects(prog)
-    results = [rule_res1(prog, E), rule_res4(prog), rule_res5(prog)]
+    T = Attempts()
+    results = T.results(T(rule_res1, prog, E), T(rule_res4, prog),
+                        T(rule_res5, prog))
     # shared-state rule of C07 also backs "owned by the caller"
-    r4 = c07.rule_pure4(prog, E)
-    r4.rule = 'R-RES-1b'
-    for f in r4.findings:
-        f.prop = PROP
-        f.rule = 'R-RES-1b'
-    results.append(r4)
+    r4 = T(c07.rule_pure4, prog, E)
+    if r4 is not None:
+        r4.rule = 'R-RES-1b'
+        for f in r4.findings:
+            f.prop = PROP
+            f.rule = 'R-RES-1b'
+        results.append(r4)
     expl = ('Alias summaries (least fixpoint over the call graph) show that '
             'the object returned by each modelcheck aliases no argument and '
             'no module/class state; every CTL handler and LTL.modelcheck '
@@ -298,4 +301,4 @@ def run(prog, tier, seed):
     assumptions = ['set members are hashable values',
                    'C01 assumptions for the handler summaries',
                    'no reflection']
-    return results, expl, assumptions, {}
+    return results, expl, assumptions, T.extra()
